@@ -111,6 +111,17 @@ def wrappers():
         'c_tuple': lambda v: (comment(v, 'c'), 0),
         'c_kwarg': lambda v: Call(kw=comment(v, 'c')),
         'tc_dict': lambda v: trailing_comment({'k': v}, 't'),
+        'ordereddict': lambda v: __import__('collections').OrderedDict([('k', v)]),
+        'deque': lambda v: __import__('collections').deque([v], maxlen=3),
+        'defaultdict': lambda v: __import__('collections').defaultdict(list, {'k': v}),
+        'chainmap': lambda v: __import__('collections').ChainMap({'k': v}),
+        'namespace': lambda v: __import__('types').SimpleNamespace(a=v),
+        'namedtuple': lambda v: fixtures.NT(v, 0),
+        'sublist': lambda v: fixtures.SUBCLASSES[list][0]([v]),
+        'subdict': lambda v: fixtures.SUBCLASSES[dict][0]({'k': v}),
+        'partial': lambda v: __import__('functools').partial(fixtures.f, v),
+        'exception': lambda v: ValueError(v),
+        'c_callarg': lambda v: Call(comment(v, 'c'), 1),
     }
 
 
@@ -134,7 +145,8 @@ def named_families():
     W = wrappers()
     fams = {}
     for name in ('list', 'tuple', 'list2', 'dictval', 'dict3', 'frozenset', 'c_elem', 'c_dictval', 'c_dictkey',
-                 'tc_list', 'c_tuple', 'callarg', 'c_kwarg', 'tc_dict'):
+                 'tc_list', 'c_tuple', 'callarg', 'c_kwarg', 'tc_dict', 'ordereddict', 'deque', 'defaultdict', 'chainmap',
+                 'namespace', 'namedtuple', 'sublist', 'subdict', 'partial', 'exception', 'c_callarg'):
         fams['nest:' + name] = ((lambda n, w=W[name]: chain(w, n)), 4)
     fams['nest:dictkey'] = (lambda n: {chain(lambda v: (v,), n): 1}, 4)
     fams['flat:list'] = (lambda n: list(range(n * 20)), 4)
